@@ -74,6 +74,13 @@ QueryCost(q) ==
 
 Expensive(q) == QueryCost(q) > Theta
 
+\* a literal with a huge exponent is converted to a number while the text is READ: the input is expensive whatever the rest of
+\* the text turns out to be, also when the query as a whole is malformed (`( 1e999999999`) and has no tree to take a cost from
+HasHugeLiteral(text) ==
+  LET toks == Lex(text) IN
+  \E i \in DOMAIN toks : toks[i].k = "dec" /\ toks[i].hasexp /\ ExpOf(toks[i]).s = "huge"
+ExpensiveText(text) == HasHugeLiteral(text) \/ Expensive(ParseQueryText(text))
+
 -----------------------------------------------------------------------------
 (* the stage machine; `obs` is the outcome the environment (the code) produces *)
 VARIABLES stage, req, outcome
